@@ -215,7 +215,7 @@ func (o *c10Oracle) AfterRun(w *World, op *Op, res *RunResult) {
 			return
 		}
 		if !res.OK() {
-			w.Fail("second-run-failed", "same flags right after a successful run: stage=%s err=%s", res.Stage, res.Err)
+			w.Fail("second-run-failed:"+res.FailClass(), "same flags right after a successful run: stage=%s err=%s", res.Stage, res.Err)
 			return
 		}
 		if len(res.Plan) > 0 || len(res.Writes) > 0 {
